@@ -1,6 +1,8 @@
 import TxdbusModel.Proofs.Auth.ServerClose
 import TxdbusModel.Proofs.Auth.ServerConform
 import TxdbusModel.Proofs.Auth.ServerRealSafe
+import TxdbusModel.Proofs.Auth.ServerMulti
+import TxdbusModel.Proofs.Auth.ServerMultiExt
 /-!
 # C06 - the bus authenticates a peer only after a mechanism accepted it
 
@@ -335,6 +337,69 @@ theorem line_partition_independent (guid : Bytes) (w : W) (r1 r2 : List Bytes)
 
 /-! ## the hypotheses are satisfiable -/
 
+
+/-! ## several connections of one bus process (`Auth/ServerMulti.lean`)
+
+A bus serves many connections at once; their reads interleave arbitrarily, connections come and go, the clock
+advances, and the connections of the real mechanisms share one keyring.  `G` is the state outside the protocol
+objects, `V` how a connection finds its world in it (`Multi.scriptedView`: private scripts; `Multi.realView`:
+one environment, private peer credentials). -/
+
+section bus
+open Txdbus.AuthServer.Multi
+variable {G : Type} (V : View G W)
+
+/-- 1 on a shared bus.  After ANY history of connects, reads on any connection, losses and changes of the outside,
+every connection for which `connectionAuthenticated()` ran has in its OWN log an accept of an offered mechanism,
+then only non-rejecting lines, then BEGIN as the last line it handled - whatever the other connections did to the
+shared world in between - and it is not closed. -/
+theorem bus_authenticated_only_after_accept (guid : Bytes) (g : G) (evs : List (Event G)) :
+    ∀ c ∈ (Multi.run S V guid (Bus.init g : Bus G W I) evs).conns,
+      c.proto.authenticated = true → AuthWitness S.offered c.proto.log ∧ c.proto.closed = false :=
+  Multi.bus_authenticated_only_after_accept S V guid g evs
+
+/-- 2 on a shared bus: every connection's replies are the specification table's along its own log, an unauthenticated
+connection's table is not in `authenticated`, and the rejection counter of an open connection counts ITS rejections. -/
+theorem bus_refines_spec (guid : Bytes) (g : G) (evs : List (Event G)) :
+    ∀ c ∈ (Multi.run S V guid (Bus.init g : Bus G W I) evs).conns,
+      (specRun S.offered maxRejects guid c.proto.log).ok = true ∧
+      (c.proto.authenticated = false →
+        (specRun S.offered maxRejects guid c.proto.log).st.phase ≠ .authenticated) ∧
+      (c.proto.closed = false → c.proto.crashed = false → c.proto.authenticated = false →
+        c.proto.srv.rejects = countRejections c.proto.log) :=
+  Multi.bus_refines_spec S V guid g evs
+
+/-- With a private view (the scripted mechanisms: one outcome script per connection) a connection is a function of
+its own reads: after any history of the whole bus its state is what the single-connection model (`runReads`, the
+subject of every theorem above) reaches on the reads delivered to it - rejections, cancelled or half-finished
+exchanges, closed or crashed neighbours leave no trace on it. -/
+theorem bus_connections_independent (hV : Private V) (guid : Bytes) (b : Bus G W I) (evs : List (Event G))
+    (hb : Coherent V b) (he : EnvKeeps V evs) (k : Nat) (c : Conn W I) (hk : b.conns[k]? = some c)
+    (hl : c.lost = false) :
+    ∃ c', (Multi.run S V guid b evs).conns[k]? = some c' ∧ c'.proto = runReads S c.proto (readsOf k evs) :=
+  Multi.private_independent S V guid hV b evs hb he k c hk hl
+
+/-- The scripted mechanisms of the harness are such a private view. -/
+theorem bus_scripted_private : Private scriptedView := scriptedView_private
+
+/-- EXTERNAL on a shared bus (real mechanisms, one environment, every connection with the peer credentials its own
+socket reported): after any history in which the outside does not rewrite those credentials, the EXTERNAL instance
+that connection `k` holds was built from the credentials of connection `k`. -/
+theorem bus_external_own_credentials (guid : Bytes) (g : RealBus) (evs : List (Event RealBus))
+    (he : EnvKeepsCreds evs) :
+    ∀ k c, (Multi.run real realView guid (Bus.init g) evs).conns[k]? = some c →
+      ∀ n ok cr, c.proto.srv.cur = some (n, .ext ok cr) → cr = g.creds k :=
+  Multi.bus_external_own_credentials guid g evs he
+
+/-- ... and such an instance says accept only when those credentials have a passwd entry (whose name is what
+`getUserName()` returns, i.e. the identity BEGIN records: `real_user_ext`). -/
+theorem external_accept_has_entry (w : RealWorld) (ok : Bool) (cr : Option Int) (a : Option Bytes)
+    (h : (real.step w (.ext ok cr) a).2.2 = .accept) :
+    ∃ uid e, cr = some uid ∧ getpwuidI w.cfg uid = some e :=
+  Multi.external_accept_has_entry w ok cr a h
+
+end bus
+
 section examples
 
 private def g : Bytes := lit "guid"
@@ -404,3 +469,9 @@ end Txdbus.C06
 #print axioms Txdbus.C06.table_states
 #print axioms Txdbus.C06.table_words
 #print axioms Txdbus.C06.table_cookie
+#print axioms Txdbus.C06.bus_authenticated_only_after_accept
+#print axioms Txdbus.C06.bus_refines_spec
+#print axioms Txdbus.C06.bus_connections_independent
+#print axioms Txdbus.C06.bus_scripted_private
+#print axioms Txdbus.C06.bus_external_own_credentials
+#print axioms Txdbus.C06.external_accept_has_entry
